@@ -1,14 +1,14 @@
 #!/bin/bash
 # usage: sweep_seeded.sh [prefix...]   — applies every kept seeded change (seeded/<id>/patch.diff) whose id
-# starts with one of the prefixes (default: all) to /repo, runs the check named in its meta.json
-# (`needs_to_manifest`, first `./check Cxx`), undoes it, and prints one line per change. A change counts as
+# starts with one of the prefixes (default: all) to /repo, runs the check of the property named in its meta.json
+# (`breaks_property`), undoes it, and prints one line per change. A change counts as
 # caught when the check exits 1 with a VIOLATION line. The evidence files of the unchanged tree are put back.
 cd /verif
 rm -rf /tmp/.evidence_sweep && cp -r /verif/evidence /tmp/.evidence_sweep
 for d in seeded/*/; do
   id=$(basename $d)
   if [ $# -gt 0 ]; then ok=0; for p in "$@"; do case $id in $p*) ok=1;; esac; done; [ $ok = 1 ] || continue; fi
-  prop=$(python3 -c "import json,re,sys; m=json.load(open('$d/meta.json')); print(re.search(r'C\d\d', m['needs_to_manifest']).group(0))")
+  prop=$(python3 -c "import json; print(json.load(open('$d/meta.json'))['breaks_property'])")
   (cd /repo && git apply --check /verif/$d/patch.diff 2>/dev/null) || { echo "$id $prop PATCH-DOES-NOT-APPLY"; continue; }
   (cd /repo && git apply /verif/$d/patch.diff)
   out=$(./check $prop 2>&1); rc=$?
